@@ -189,7 +189,14 @@ func init() {
 		x.assumed["strconv.ParseInt(s,16,0) with len(s)==1 and nil error returns 0..15 (library contract)"] = true
 		return []Val{r, err}
 	}
-	libModels["strconv.Itoa"] = havoc("strconv.Itoa")
+	libModels["strconv.Itoa"] = func(x *Exec, st *State, e *ast.CallExpr, recv *Val) []Val {
+		x.expr(st, e.Args[0])
+		s := x.freshVal(st, "itoa", types.Typ[types.String])
+		n := x.c.App("str_len", s.T)
+		x.assumeGlobal(st, x.c.And(x.idxLe(x.idxLit(1), n), x.idxLe(n, x.idxLit(20))))
+		x.assumed["strconv.Itoa: a string of 1..20 bytes (library contract)"] = true
+		return []Val{s}
+	}
 	libModels["strconv.Atoi"] = func(x *Exec, st *State, e *ast.CallExpr, recv *Val) []Val {
 		x.expr(st, e.Args[0])
 		r := x.freshVal(st, "atoi", types.Typ[types.Int])
@@ -272,15 +279,22 @@ func (x *Exec) leWrite(st *State, b Val, o int64, n int, v *Term, vt types.Type)
 	}
 }
 
-// bytesEq: two byte slices have equal length and content.
+// bytesEq: two byte slices have equal length and content. The result is stated as equality of the
+// strings they denote (string values are extensional), linked both ways to the element-wise form.
 func (x *Exec) bytesEq(st *State, a, b Val) *Term {
 	c := x.c
+	x.needStr()
 	m := x.heapGet(st, memComp(u8), x.memSort(u8))
 	ca, cb := c.Select(m, a.Arr), c.Select(m, b.Arr)
 	j := c.Bound("j", x.idxSort())
 	all := c.Forall([]*Term{j}, c.Implies(c.And(x.idxLe(x.idxLit(0), j), x.idxLt(j, a.Len)),
 		c.Eq(c.Select(ca, x.idxAdd(a.Off, j)), c.Select(cb, x.idxAdd(b.Off, j)))))
-	return c.And(c.Eq(a.Len, b.Len), all)
+	elem := c.And(c.Eq(a.Len, b.Len), all)
+	strEq := c.Eq(c.App("str_of", ca, a.Off, a.Len), c.App("str_of", cb, b.Off, b.Len))
+	if x.inQuant == 0 && !x.specMode {
+		x.assumeGlobal(st, c.Eq(strEq, elem))
+	}
+	return strEq
 }
 
 // lockEvent keeps a ghost nesting depth so that contracts can talk about critical sections.
